@@ -186,6 +186,35 @@ func mergesFrom(p *Program, f *ssa.Function, src ssa.Value, seen map[*ssa.Functi
 			}
 		}
 	}
+	// a map of src handed, together with a map of another escaper, to a helper that copies one into the other
+	// (dst.addAll(src) of a named map type)
+	for _, b := range f.Blocks {
+		for _, in := range b.Instrs {
+			c, ok := in.(*ssa.Call)
+			if !ok {
+				continue
+			}
+			g := staticCallee(c.Common())
+			if g == nil || g.Blocks == nil || g.Pkg != f.Pkg {
+				continue
+			}
+			for j, aj := range c.Common().Args {
+				sb, _, ok := mapFieldOf(aj)
+				if !ok || sb != src {
+					continue
+				}
+				for i, ai := range c.Common().Args {
+					db, df, ok := mapFieldOf(ai)
+					if !ok || db == src || i == j {
+						continue
+					}
+					if copiesMapParam(g, j, i) {
+						out = append(out, mergeWrite{c, df})
+					}
+				}
+			}
+		}
+	}
 	// a helper that receives both escapers
 	if seen == nil {
 		seen = map[*ssa.Function]bool{}
@@ -333,4 +362,27 @@ func blockReaches(a, b *ssa.BasicBlock) bool {
 		return false
 	}
 	return dfs(a)
+}
+
+// copiesMapParam: g ranges over its map parameter #from and updates its map parameter #to with what the iteration yields.
+func copiesMapParam(g *ssa.Function, from, to int) bool {
+	if from >= len(g.Params) || to >= len(g.Params) {
+		return false
+	}
+	for _, b := range g.Blocks {
+		for _, in := range b.Instrs {
+			rg, ok := in.(*ssa.Range)
+			if !ok || rg.X != ssa.Value(g.Params[from]) {
+				continue
+			}
+			for _, b2 := range g.Blocks {
+				for _, in2 := range b2.Instrs {
+					if mu, ok := in2.(*ssa.MapUpdate); ok && mu.Map == ssa.Value(g.Params[to]) && (fromRange(mu.Key, rg) || fromRange(mu.Value, rg)) {
+						return true
+					}
+				}
+			}
+		}
+	}
+	return false
 }
